@@ -160,9 +160,13 @@ func (c *conn) handleSubscribe(in *inEnvelope) error {
 
 	e := c.executor
 
+	// self is this subscription's rerunner. It is written below while c.mu is
+	// held and only read by closeRerunner after taking c.mu.
+	var self *reactive.Rerunner
+
 	initial := true
 	c.subscriptionLogger.Subscribe(c.ctx, id, tags)
-	c.subscriptions[id] = reactive.NewRerunner(c.ctx, func(ctx context.Context) (interface{}, error) {
+	self = reactive.NewRerunner(c.ctx, func(ctx context.Context) (interface{}, error) {
 		ctx = c.makeCtx(ctx)
 		ctx = batch.WithBatching(ctx)
 
@@ -196,7 +200,7 @@ func (c *conn) handleSubscribe(in *inEnvelope) error {
 
 		if err != nil {
 			if ErrorCause(err) == context.Canceled {
-				go c.closeSubscription(id)
+				go c.closeRerunner(id, &self)
 				return nil, err
 			}
 
@@ -222,7 +226,7 @@ func (c *conn) handleSubscribe(in *inEnvelope) error {
 				Message:  SanitizeError(err),
 				Metadata: output.Metadata,
 			})
-			go c.closeSubscription(id)
+			go c.closeRerunner(id, &self)
 
 			if _, ok := err.(SanitizedError); !ok {
 				c.logger.Error(ctx, err, tags)
@@ -254,6 +258,7 @@ func (c *conn) handleSubscribe(in *inEnvelope) error {
 		initial = false
 		return nil, nil
 	}, c.minRerunIntervalFunc(c.ctx, query), c.alwaysSpawnGoroutineFunc(c.ctx, query))
+	c.subscriptions[id] = self
 
 	return nil
 }
@@ -292,9 +297,12 @@ func (c *conn) handleMutate(in *inEnvelope) error {
 		return err
 	}
 
+	// self: see handleSubscribe.
+	var self *reactive.Rerunner
+
 	initial := true
 	e := c.executor
-	c.subscriptions[id] = reactive.NewRerunner(c.ctx, func(ctx context.Context) (interface{}, error) {
+	self = reactive.NewRerunner(c.ctx, func(ctx context.Context) (interface{}, error) {
 		// Serialize all mutates for a given connection.
 		c.mutateMu.Lock()
 		defer c.mutateMu.Unlock()
@@ -337,7 +345,7 @@ func (c *conn) handleMutate(in *inEnvelope) error {
 				Metadata: output.Metadata,
 			})
 
-			go c.closeSubscription(id)
+			go c.closeRerunner(id, &self)
 
 			if ErrorCause(err) == context.Canceled {
 				return nil, err
@@ -359,9 +367,10 @@ func (c *conn) handleMutate(in *inEnvelope) error {
 		go c.rerunSubscriptionsImmediately()
 
 		initial = false
-		go c.closeSubscription(id)
+		go c.closeRerunner(id, &self)
 		return nil, errors.New("stop")
 	}, c.minRerunIntervalFunc(c.ctx, query), c.alwaysSpawnGoroutineFunc(c.ctx, query))
+	c.subscriptions[id] = self
 
 	return nil
 }
@@ -381,6 +390,22 @@ func (c *conn) closeSubscription(id string) {
 	defer c.mu.Unlock()
 
 	if runner, ok := c.subscriptions[id]; ok {
+		runner.Stop()
+		delete(c.subscriptions, id)
+		c.subscriptionLogger.Unsubscribe(c.ctx, id)
+	}
+}
+
+// closeRerunner ends the subscription or mutation that owns *self, if it is
+// still the one registered under id. Computations use it to end themselves:
+// by the time the goroutine runs, the client may have unsubscribed id and
+// subscribed it again, and that newer subscription must not be closed.
+func (c *conn) closeRerunner(id string, self **reactive.Rerunner) {
+	verifhook.Yield("server.closeSubscription.enter")
+	c.mu.Lock()
+	defer c.mu.Unlock()
+
+	if runner, ok := c.subscriptions[id]; ok && runner == *self {
 		runner.Stop()
 		delete(c.subscriptions, id)
 		c.subscriptionLogger.Unsubscribe(c.ctx, id)
